@@ -17,6 +17,7 @@ Definition caused (m : mgr) (ev : event) (e : nat) (o : eoutcome) : Prop :=
   | Break x => o = ORaisedExn x /\ retryable x = false /\ exists id, In (id, e) (subs m)
   | Cancel i => i = e /\ o = OCancelled
   | Stop => o = OCancelled /\ exists id, In (id, e) (subs m)
+  | BreakCancel x i => (i = e /\ o = OCancelled) \/ (o = ORaisedExn x /\ retryable x = false /\ exists id, In (id, e) (subs m))
   | Submit _ | Process _ | RejectReq _ _ => False
   end.
 
@@ -81,7 +82,7 @@ Theorem outcome_provenance_step : forall m ev c e o,
   In (c, e, o) (ldones (mstep m ev)) -> In (c, e, o) (ldones m) \/ (c = S (clock m) /\ caused m ev e o).
 Proof.
   intros m ev c e o H. unfold mstep in H.
-  destruct ev as [p|k|k cd|k|k|x|i|]; simpl caused.
+  destruct ev as [p|k|k cd|k|k|x|i| |x i]; simpl caused.
   - rewrite ldones_send in H. auto.
   - simpl in H. destruct (take_nth k (wire m)) as [[w rest]|]; auto.
     pose proof (ldones_serve w (set_wire rest (set_clock (S (clock m)) m))) as Hs.
@@ -105,6 +106,10 @@ Proof.
   - simpl in H. destruct (nth_error (execs m) i) as [y|]; auto. destruct (is_running (est y)); auto.
     simpl in H. destruct H as [H|H]; auto. inversion H; subst. auto.
   - apply ldones_wake_stopped in H. simpl in H. destruct H as [H|[A [B D]]]; auto.
+  - apply ldones_wake_broken in H. unfold cancel_if_running in H. simpl in H.
+    destruct (nth_error (execs m) i) as [y|]; [destruct (is_running (est y))|]; simpl in H;
+      destruct H as [H|[A [B [C D]]]]; auto 6.
+    destruct H as [H|H]; auto. inversion H; subst. auto.
 Qed.
 
 (* P1 along every event sequence: the outcomes observed after one more event are the earlier ones plus caused ones *)
